@@ -30,7 +30,7 @@ RULE = (
     "with FontBuilder (composites nested up to depth 4, scaled / flipped / 2x2 / point-matched components, SCALED/UNSCALED "
     "offset flags, empty glyphs, single-point contours, negative side bearings, equal trailing advances, vertical metrics, "
     "odd-length instructions, dummy DSIG) x flavour {sfnt, woff, woff2} x reorderTables {True, False, None} x recalcBBoxes x "
-    "glyf padding {default, 0, 1, 2, 4} x lazy {None, True, False} x decompile {all, none} x WOFF metadata/private blocks x "
+    "glyf padding {default, 0, 1, 2, 4} x lazy {None, True, False} x decompile {all, none} x model {loaded from bytes, never-serialised FontBuilder object} x WOFF metadata/private blocks x "
     "WOFF2 hmtx transform; collections of 2-3 such fonts (duplicates with one table changed, so that sharing happens) x "
     "shareTables x TTC header v1/v2(+DSIG block). Oracle: independent reader vf/sfntref.py: directory order, search fields, "
     "table and whole-file checksums, alignment, zero padding, overlaps, WOFF/WOFF2 header arithmetic, brotli/zlib stream sizes, "
@@ -103,6 +103,26 @@ def _st_spec():
             contours.append([[draw(coord), draw(coord), draw(st.sampled_from([1, 1, 0]))] for _ in range(n)])
         return dict(k="s", contours=contours, instr=draw(st.binary(max_size=5)), overlap=draw(st.sampled_from([False, False, True])))
 
+    # deltas around the breakpoints of the WOFF2 triplet encoding (0, 64/65, 768/769, 1279/1280, 4095/4096) and of
+    # the glyf flag encoding (255/256)
+    edge = st.sampled_from([0, 1, 63, 64, 65, 66, 255, 256, 257, 767, 768, 769, 770, 1279, 1280, 1281, 4095, 4096, 4097])
+
+    @st.composite
+    def boundary(draw):
+        n = draw(st.integers(2, 7))
+        x, y = draw(st.integers(-50, 50)), draw(st.integers(-50, 50))
+        pts = [[x, y, 1]]
+        for _ in range(n):
+            dx = draw(edge) * draw(st.sampled_from([1, -1]))
+            dy = draw(edge) * draw(st.sampled_from([1, -1]))
+            if abs(x + dx) > 8000:
+                dx = -dx
+            if abs(y + dy) > 8000:
+                dy = -dy
+            x, y = x + dx, y + dy
+            pts.append([x, y, draw(st.sampled_from([1, 0]))])
+        return dict(k="s", contours=[pts], instr=draw(st.binary(max_size=3)), overlap=False, big=True)
+
     @st.composite
     def spec(draw):
         glyphs = []
@@ -112,7 +132,7 @@ def _st_spec():
             kinds = ["s", "s", "e"] if i < 2 else ["s", "e", "c", "c", "c"]
             k = draw(st.sampled_from(kinds))
             if k == "s":
-                glyphs.append(draw(simple()))
+                glyphs.append(draw(boundary()) if draw(st.sampled_from([False, False, False, True])) else draw(simple()))
                 depth.append(0)
             elif k == "e":
                 glyphs.append(dict(k="e"))
@@ -121,7 +141,11 @@ def _st_spec():
                 ncomp = draw(st.sampled_from([1, 1, 2, 2, 3, 4]))
                 comps = []
                 d = 1
-                cands = [j for j in range(i) if depth[j] < 4]
+                cands = [j for j in range(i) if depth[j] < 4 and not glyphs[j].get("big")]
+                if not cands:
+                    glyphs.append(dict(k="e"))
+                    depth.append(0)
+                    continue
                 deep = [j for j in cands if depth[j] >= 1]
                 for ci in range(ncomp):
                     pool = deep if deep and draw(st.booleans()) else cands
@@ -511,15 +535,12 @@ def font_labels(tables):
             L.append("outlines:glyf")
             locs, fmt = sfntref._loca(tables)
             L.append("loca:long" if fmt else "loca:short")
-            if len(maxp) >= 32:
-                d = struct.unpack(">H", maxp[30:32])[0]
-                L.append("comp:depth=%d" % min(d, 4))
-                if d >= 3:
-                    L.append("comp:depth>=3")
             empty = odd = comp = tr = pm = single = 0
             if n <= 3000:
+                glyphs = []
                 for gid in range(min(n, len(locs) - 1)):
                     g = sfntref.glyf_points(tables, gid)
+                    glyphs.append(g)
                     if g is None:
                         empty += 1
                         continue
@@ -534,6 +555,14 @@ def font_labels(tables):
                                 pm += 1
                     elif g["nc"] > 0 and len(g["pts"]) == 1:
                         single += 1
+                d = 0
+                memo = {}
+                for gid, g in enumerate(glyphs):
+                    if g is not None and g["nc"] < 0:
+                        d = max(d, sfntref._flatten(gid, glyphs, memo, set()).depth)
+                L.append("comp:depth=%d" % min(d, 4))
+                if d >= 3:
+                    L.append("comp:depth>=3")
             for nm, v in (("glyph:empty", empty), ("glyph:odd-length", odd), ("glyph:composite", comp), ("comp:transformed", tr), ("comp:point-matching", pm), ("glyph:single-point", single)):
                 if v:
                     L.append(nm)
@@ -611,13 +640,13 @@ def check_file(acc, case, data, flavor, derived, cache, extra_labels=(), padding
 
 
 def _kind(p):
-    """bucket name of a problem string: its prefix up to the first number / quote"""
+    """bucket name of a problem string: numbers, quoted names and tuples removed, first words kept"""
     import re
 
-    head = p.split(":")[0]
-    rest = p[len(head) + 1 :].strip()
-    words = re.split(r"[\d(\[\'\"]", rest)[0].strip().split(" ")[:6]
-    return (head + ":" + " ".join(words))[:70]
+    t = re.sub(r"'[^']*'|\"[^\"]*\"", "T", p)
+    t = re.sub(r"\([^)]*\)|\[[^\]]*\]", "(..)", t)
+    t = re.sub(r"0x[0-9a-fA-F]+|-?\d+", "N", t)
+    return " ".join(t.split(" ")[:9])[:80]
 
 
 def _precondition_not_met(e):
@@ -666,13 +695,22 @@ def run_font_case(case, acc):
         # the file FontBuilder wrote from the object model (recalcBBoxes=True): all clauses apply
         check_file(acc, dict(case, stage="build"), B, None, True, cache, extra_labels=["stage:build"], padding_clause=1)
     outs = {}
+    from_object = bool(case.get("from_object")) and "gen" in src
+    if from_object:
+        decomp = "all"
+        derived = bool(case.get("recalc"))
     for flavor in SFNT_FLAVORS:
         try:
-            font = load(B, num, case)
+            if from_object:
+                # the in-memory model FontBuilder made, never serialised before (no reader behind it)
+                font = build_generated(src["gen"])
+                font.recalcBBoxes = bool(case.get("recalc"))
+            else:
+                font = load(B, num, case)
         except Exception as e:
             acc.exclude("input-does-not-load:%s" % type(e).__name__)
             return
-        if decomp == "all":
+        if decomp == "all" and not from_object:
             bad = decompile_all(font)
             if bad:
                 acc.exclude("table-does-not-decompile", 1)
@@ -692,7 +730,7 @@ def run_font_case(case, acc):
             continue
         data = buf.getvalue()
         glyf_recompiled = "glyf" in font and font.isLoaded("glyf") and (bool(case.get("recalc")) or decomp == "all")
-        xl = ["reorder:%s" % case.get("reorder", True), "recalc:%s" % bool(case.get("recalc")), "lazy:%s" % case.get("lazy"), "decompile:%s" % decomp, "pad:%s" % case.get("padding"), "src:%s" % ("gen" if "gen" in src else src["fid"].split(":")[0])]
+        xl = ["reorder:%s" % case.get("reorder", True), "recalc:%s" % bool(case.get("recalc")), "lazy:%s" % case.get("lazy"), "decompile:%s" % decomp, "pad:%s" % case.get("padding"), "src:%s" % ("gen" if "gen" in src else src["fid"].split(":")[0]), "model:%s" % ("object" if from_object else "file")]
         pc = (case["padding"] if case.get("padding") is not None else 1) if glyf_recompiled else None
         c = check_file(acc, case, data, flavor, derived, cache, extra_labels=xl, padding_clause=pc)
         if c is not None:
@@ -905,7 +943,7 @@ def _st_gen_case():
     @st.composite
     def s(draw):
         rnd = random.Random(draw(st.integers(0, 2**32)))
-        return dict(kind="font", src=dict(gen=draw(_st_spec())), **_options(rnd, True, first=draw(st.booleans())))
+        return dict(kind="font", src=dict(gen=draw(_st_spec())), from_object=draw(st.sampled_from([False, False, True])), **_options(rnd, True, first=draw(st.booleans())))
 
     return s()
 
@@ -1012,6 +1050,7 @@ MUST_OCCUR = [
     "pad:4",
     "reorder:None",
     "reorder:False",
+    "model:object",
     "flavour-compared:woff",
     "flavour-compared:woff2",
 ]
